@@ -677,3 +677,21 @@ Definition float_applicable_current (gor_c : list Z -> option (list Z)) (m : fmo
   | FSame, v0 :: rest => words_ok vs && forallb (fun v => f_eq v v0) vs && (len vs <? 65536)
   | _, _ => float_applicable gor_c m vs
   end.
+
+(* today's record reader (engine/wal.go replayPhysicRecord): io.ReadFull reporting io.EOF - not a single payload byte
+   follows the header - is treated like success, and the pooled buffer, still holding `stale` bytes of an earlier
+   record, is decompressed and delivered *)
+Definition frame_dec_current (wd : list Z -> option (list Z)) (stale : list Z) (bs : list Z) : option (Z * list Z * list Z) :=
+  match bs with
+  | [] => None
+  | t :: body =>
+      match get_be 4 body with
+      | Some (n, r) =>
+          if (t <=? 0) || (3 <=? t) then None
+          else if (len r =? 0) && (0 <? n) then
+            (if len stale <? n then None
+             else match wd (firstn (Z.to_nat n) stale) with Some p => Some (t, p, []) | None => None end)
+          else frame_dec wd bs
+      | None => None
+      end
+  end.
